@@ -158,9 +158,27 @@ static void *asm_mmap_file(char *asm_file, size_t *str_len) {
 
   // NOLINTNEXTLINE
   FAIL_SYS(fstat(fd, &file_stat), "failed to get file stats\n", MAP_FAILED);
-  // map file contents to a string
-  *str_len = file_stat.st_size;
-  void *str = mmap(NULL, *str_len, PROT_READ, MAP_PRIVATE, fd, 0);
+  // copy the file contents into a zero-filled anonymous mapping that is one
+  // byte longer than the file, so the result is always a NUL-terminated string
+  // (a mapping of the file itself has no terminator when its size is a multiple
+  // of the page size, and an empty file cannot be mapped at all)
+  size_t file_len = file_stat.st_size;
+  *str_len = file_len + 1;
+  char *str = mmap(NULL, *str_len, PROT_READ | PROT_WRITE,
+                   MAP_ANONYMOUS | MAP_PRIVATE, -1, 0);
+  if (str != MAP_FAILED) { // NOLINT
+    size_t done = 0;
+    while (done < file_len) {
+      ssize_t got = read(fd, str + done, file_len - done);
+      if (got <= 0)
+        break;
+      done += got;
+    }
+    if (done < file_len) {
+      munmap(str, *str_len);
+      str = MAP_FAILED; // NOLINT
+    }
+  }
   close(fd);
   return str;
 }
